@@ -1185,7 +1185,7 @@ class Engine:
             if attr in m.classes:
                 return VClass(f"{modname}:{attr}")
             if attr in m.assigns:
-                return self.resolve_global(None, m, attr)
+                return self.resolve_global(Ctx(self, [], "module-constant"), m, attr)
             if attr in m.imports:
                 m2, a2 = m.imports[attr]
                 if a2 is None:
